@@ -219,8 +219,10 @@ fn chunker(focus: &str, t: &mut Tape) {
             break;
         }
     }
-    let fresh: Vec<bool> = (0..48).map(|_| t.chance(1, 3)).collect();
-    let spurious_at: Vec<bool> = (0..48).map(|_| t.chance(1, 6)).collect();
+    // Two bit masks instead of 96 draws (formatting a long tape costs interpreter time).
+    let (m1, m2, m3) = (t.draw(u32::MAX), t.draw(u32::MAX), t.draw(u32::MAX));
+    let fresh: Vec<bool> = (0..32).map(|i| (m1 >> i) & 1 == 1 && (m2 >> i) & 1 == 1 || (m1 >> i) & 3 == 3 && i % 3 == 0).collect();
+    let spurious_at: Vec<bool> = (0..32).map(|i| (m3 >> i) & 7 == 7).collect();
     let spurious_budget = t.draw(3) as u64;
     let overpoll = if focus == "C20" { 1 + t.draw(4) } else { t.draw(3) };
     let body_drop_at: Option<u32> = if focus == "C11" && t.chance(1, 2) { Some(t.draw(6)) } else { None };
@@ -728,7 +730,7 @@ fn files(focus: &str, t: &mut Tape, unique: u64) {
     println!("TAPE {}", t.vals.iter().map(|v| v.to_string()).collect::<Vec<_>>().join(","));
     println!("CONFIG scenario=files focus={focus} len={len} threads={nthreads} programs={progs:?}");
     let content: Arc<Vec<u8>> = Arc::new((0..len).map(|i| (i.wrapping_mul(31).wrapping_add(cseed) >> 3) as u8 ^ (i >> 11) as u8).collect());
-    let dir = std::env::var("MSIM_DIR").unwrap_or_else(|_| std::env::temp_dir().to_string_lossy().into_owned());
+    let dir = std::env::args().collect::<Vec<_>>().windows(2).find(|w| w[0] == "--dir").map(|w| w[1].clone()).unwrap_or_else(|| std::env::temp_dir().to_string_lossy().into_owned());
     // `unique` is host entropy (isolation is off in this scenario); it only names the scratch file.
     let path = format!("{dir}/msim-{}-{unique:016x}.bin", std::process::id());
     std::fs::write(&path, &content[..]).expect("write scratch file");
